@@ -5,6 +5,7 @@ from ..transducer import make_pure_call_hook
 from ..ir import call_target
 from ..tables import base_name
 
+RETRY_INLINED = True
 LEVEL = 'proof'
 
 UNRESERVED = set(b'ABCDEFGHIJKLMNOPQRSTUVWXYZabcdefghijklmnopqrstuvwxyz0123456789-._~')
